@@ -129,5 +129,5 @@ Qed.
 Lemma rparen_fail : forall f tb lv t r, parse_at (13 + f) tb lv ((KRParen, t) :: r) = PFail.
 Proof.
   intros f tb lv t r.
-  destruct lv as [|[|[|[|[|[|[|[|[|[|[|[|[|lv]]]]]]]]]]]]]; reflexivity.
+  destruct lv as [|[|[|[|[|[|[|[|[|[|[|[|[|lv]]]]]]]]]]]]]; lazy; reflexivity.
 Qed.
